@@ -107,12 +107,18 @@ type oracle struct {
 	expected  map[string]string // content id -> spec JSON of a Composition with that content
 }
 
-func newOracle(w *world) *oracle {
-	o := &oracle{w: w, ctx: ctxPlain, contentOf: map[types.UID]string{}, firstSpec: map[types.UID]string{}, maxNum: map[types.UID]int64{}, expected: map[string]string{}}
+// expectedSpec: content id -> spec JSON of a Composition with that content.
+var expectedSpec = func() map[string]string {
+	m := map[string]string{}
+	s := simkube.New(xrh.Scheme)
 	for _, c := range contents {
-		o.expected[c.id] = specJSON(w.s.MustU(c.composition()), false)
+		m[c.id] = specJSON(s.MustU(c.composition()), false)
 	}
-	return o
+	return m
+}()
+
+func newOracle(w *world) *oracle {
+	return &oracle{w: w, ctx: ctxPlain, contentOf: map[types.UID]string{}, firstSpec: map[types.UID]string{}, maxNum: map[types.UID]int64{}, expected: expectedSpec}
 }
 
 func (o *oracle) forget(uid types.UID) {
